@@ -12,12 +12,12 @@ RULE = ('Cases = worker class x target behaviour (cooperative loop, swallows eve
 ASSUMPTIONS = ['time bound evaluated on the simulated clock: elapsed <= 5 * sum(timeouts passed) + 2 s',
                'force=True is never used on thread kinds (it kills the calling process by design)']
 
-BEHAVIOURS = ['coop', 'swallow', 'sleep', 'gilhold', 'sigstop', 'finished', 'notrun']
+BEHAVIOURS = ['coop', 'swallow', 'sleep', 'gilhold', 'sigstop', 'finished', 'notrun', 'short', 'short']
 TARGET_OF = {'coop': ('t_loop', {'n': 100000, 'd': 0.01}), 'swallow': ('t_swallow', {}), 'sleep': ('t_sleep', {'d': 1000.0}),
              'gilhold': ('t_gilhold', {}), 'sigstop': ('t_sigstop', {}), 'finished': ('t_return', {'v': 1}),
-             'notrun': ('t_return', {'v': 1})}
+             'notrun': ('t_return', {'v': 1}), 'short': ('t_loop', {'n': 10, 'd': 0.01})}
 PTARGET_OF = {'coop': ('p_slow', {'d': 0.05}), 'swallow': ('p_swallow', {}), 'sleep': ('p_slow', {'d': 1000.0}),
-              'finished': ('p_square', {}), 'notrun': ('p_square', {})}
+              'finished': ('p_square', {}), 'notrun': ('p_square', {}), 'short': ('p_slow', {'d': 0.02})}
 
 
 def gen_case(ctx, rng, i, tag='random'):
@@ -45,6 +45,7 @@ def gen_case(ctx, rng, i, tag='random'):
         else:
             ops.append([op, {}])
     return {'kind': kind, 'behaviour': beh, 'ops': ops, 'items': rng.randrange(0, 3), 'policy': pol, 'knobs': knobs,
+            'settle': rng.choice([0.05, 0.1, 0.11, 0.12, 0.15, 0.3]),
             'sched_seed': ctx.case_seed(tag, i)}
 
 
@@ -90,6 +91,8 @@ class Run:
             self.info['prewait'] = r[0]
             if r[0] != 'ok' or r[1] is not True:
                 return
+        elif beh == 'short':
+            s.sleep(c.get('settle', 0.1))   # the child finishes on its own around now; the parent has not observed it yet
         elif beh not in ('notrun',):
             s.sleep(0.3)       # let the target get going (enter its loop / sleep / C call)
         self.info['dead_before'] = beh in ('finished', 'notrun')
@@ -99,7 +102,10 @@ class Run:
             t0 = s.now
             r = lib.call_with_deadline(getattr(w, op), bound * 3 + 30.0, **kw)
             el = s.now - t0
-            rec = {'op': op, 'kw': kw, 'status': r[0], 'elapsed': round(el, 4), 'bound': bound,
+            alive_after = None
+            if op in ('wait', 'terminate') and r[0] == 'ok' and r[1] is True:
+                alive_after = lib.timed(w.is_alive)[1]       # "the return value says whether the worker is dead at that moment"
+            rec = {'op': op, 'kw': kw, 'status': r[0], 'elapsed': round(el, 4), 'bound': bound, 'alive_after': alive_after,
                    'value': r[1] if r[0] == 'ok' and isinstance(r[1], (bool, type(None))) else (type(r[1]).__name__ if r[1] is not None else None),
                    'child_gone': self.child_gone(w, kind), 'adversarial': s.clock_mode == 'adversarial'}
             if r[0] == 'hung':
@@ -115,7 +121,7 @@ class Run:
         s, c = self.sim, self.case
         V = []
         kind, beh = c['kind'], c['behaviour']
-        if not s.root_proc.alive:
+        if not s.root_proc.alive or outcome == 'caller-killed':
             ks = [r for r in s.log if r[0] == 'os.kill' and r[2] == 'root']
             op = self.case['ops'][len(self.hist)] if len(self.hist) < len(self.case['ops']) else ['?', {}]
             V.append({'clause': 'returns-normally', 'manifestation': f'{op[0]}-kills-the-calling-process:timeout={op[1].get("timeout")}',
@@ -142,6 +148,8 @@ class Run:
                     V.append({'clause': 'bounded', 'manifestation': f'{op}-slow:{beh}', 'detail': h})
                 if h['value'] is True and h['child_gone'] is False:
                     V.append({'clause': 'truthful', 'manifestation': f'{op}-true-but-child-alive:{beh}', 'detail': h})
+                if h['value'] is True and h.get('alive_after') is not False:
+                    V.append({'clause': 'truthful', 'manifestation': f'{op}-true-but-is_alive-says-{h.get("alive_after")}', 'detail': h})
                 if (dead_before or was_true):
                     if h['value'] is not True:
                         V.append({'clause': 'idempotent-on-dead', 'manifestation': f'{op}-not-true-on-dead:{"notrun" if beh == "notrun" else "dead"}', 'detail': h})
